@@ -305,6 +305,17 @@ def run(eng, R):
     ok = all("func=_combine_1d_property, func_name='%s', par_names=%s" % (a, b) in ssrc for a, b in (("derivatives", "_derivative_names"), ("y_data", "_y_data_names"), ("y_model", "_y_model_names")))
     R.ob("B-tot", "_init_shared_error_nodes:1d nodes", ok, (sh.file, sh.lineno), "derivatives, y_data and y_model must be the concatenations of the sharing members' nodes")
 
+    # the switch "x uncertainties exist" follows the members: read from the live x covariance, never cached on the multi-fit
+    mfc = p.find_class(MF)
+    pr = mfc.find_prop("_min_x_error")
+    stores = [(f_.qualname, n.lineno) for f_ in p.all_functions() if f_.cls is mfc for n in ast.walk(f_.node) if isinstance(n, ast.Assign) and any(self_attr(t) == "_min_x_error" for t in n.targets)]
+    ok = pr is not None and pr.fget is not None and "self._nexus.get('x_cov_mat').value" in _txt(pr.fget.node) and not stores
+    R.ob("B-tot", "MultiFit._min_x_error:live", ok, (sh.file, sh.lineno),
+         "the smallest x uncertainty must be computed from the current joint x covariance whenever it is asked for: a value cached by the MultiFit (%s) does not see x uncertainties "
+         "added to a member afterwards, and the shared cost ignores them" % (stores or "no property"))
+    ok = "self._nexus.add_dependency(name=_derivatives_name, depends_on=('parameter_values', _x_cov_mat_name))" in ssrc
+    R.ob("B-tot", "_init_shared_error_nodes:derivative dependencies", ok, (sh.file, sh.lineno), "the slopes of a member depend on the parameters and on that member's x covariance (the step size and the zero shortcut follow it)")
+
     # ---------------------------------------------------------------- U-res
     for fn, kind in (("do_fit", "method"), ("asymmetric_parameter_errors", "prop")):
         f = get_func(p, MF, fn)
